@@ -95,15 +95,20 @@ static char *get_basename(const char *name)
 }
 #endif /* LIBXMP_CORE_PLAYER */
 
+static void reset_test_info(struct xmp_test_info *info)
+{
+	if (info != NULL) {
+		*info->name = 0;	/* reset name prior to testing */
+		*info->type = 0;	/* reset type prior to testing */
+	}
+}
+
 static int test_module(struct xmp_test_info *info, HIO_HANDLE *h)
 {
 	char buf[XMP_NAME_SIZE];
 	int i;
 
-	if (info != NULL) {
-		*info->name = 0;	/* reset name prior to testing */
-		*info->type = 0;	/* reset type prior to testing */
-	}
+	reset_test_info(info);
 
 	for (i = 0; format_loaders[i] != NULL; i++) {
 		hio_seek(h, 0, SEEK_SET);
@@ -140,6 +145,9 @@ int xmp_test_module(const char *path, struct xmp_test_info *info)
 	char *temp = NULL;
 #endif
 	int ret;
+
+	/* both strings are empty on every failure, also those before the test */
+	reset_test_info(info);
 
 	ret = libxmp_get_filetype(path);
 
@@ -178,6 +186,8 @@ int xmp_test_module_from_memory(const void *mem, long size, struct xmp_test_info
 	HIO_HANDLE *h;
 	int ret;
 
+	reset_test_info(info);
+
 	if (size <= 0) {
 		return -XMP_ERROR_INVALID;
 	}
@@ -198,6 +208,8 @@ int xmp_test_module_from_file(void *file, struct xmp_test_info *info)
 #ifndef LIBXMP_NO_DEPACKERS
 	char *temp = NULL;
 #endif
+
+	reset_test_info(info);
 
 	if ((h = hio_open_file((FILE *)file)) == NULL)
 		return -XMP_ERROR_SYSTEM;
@@ -226,6 +238,8 @@ int xmp_test_module_from_callbacks(void *priv, struct xmp_callbacks callbacks,
 {
 	HIO_HANDLE *h;
 	int ret;
+
+	reset_test_info(info);
 
 	if ((h = hio_open_callbacks(priv, callbacks)) == NULL)
 		return -XMP_ERROR_SYSTEM;
